@@ -669,6 +669,11 @@ def run(shard, ctx):
         finally:
             del sdm.open
     n_iscsi = 0
+    # relative device strings ("sg0", "%d" ...) must open nothing; a changed tree that does open them would create files in the
+    # working directory, so the loop runs inside the scratch device directory (removed with it), never in the checkout
+    _cwd_names = os.path.join(devnode.base(), "cwd")
+    os.makedirs(_cwd_names, exist_ok=True)
+    os.chdir(_cwd_names)
     for dev in strings:
         # read_write is a truth value: whatever is true asks for a read-write handle
         rws = (False, True) if dev not in (node, more_nodes[1]) else (False, True, 0, 1, 2, 3, "rw", 1.5, os.O_RDWR, None, "", [], [1])
